@@ -251,6 +251,150 @@ def observe(entry, rng, nreads):
     return do_reads(iso, entry, out, rng, nreads)
 
 
+# ------------------------------------------------------------------ edit after read (in place)
+class EditNotRealisable(Exception):
+    """This way of editing cannot express the mutation on this object (e.g. a float into an int column)."""
+
+
+UNDOABLE = {"meta value", "label", "adsorbate", "temperature", "datum", "text cell", "branch mark",
+            "model parameter", "model range", "model rmse", "model branch"}
+EDIT_WAYS = {"datum": 4, "text cell": 4, "branch mark": 4, "meta key added": 2, "material name": 2, "material property": 2,
+             "row removed": 2, "column added": 2, "model range": 2}
+
+
+def _label(v):
+    return None if v == "none" else ("°C" if v == "degC" else v)
+
+
+def _set_cell(iso, col, pos, value, way):
+    import pandas
+    df = iso.data_raw
+    if df[col].dtype == bool:
+        value = bool(value)
+    elif pandas.api.types.is_integer_dtype(df[col].dtype) and isinstance(value, float) and value != int(value):
+        raise EditNotRealisable("float into an integer column")
+    elif pandas.api.types.is_integer_dtype(df[col].dtype) and isinstance(value, float):
+        value = int(value)
+    lab = df.index[pos]
+    if way == 0:
+        df.loc[lab, col] = value
+    elif way == 1:
+        df.iloc[pos, df.columns.get_loc(col)] = value
+    elif way == 2:
+        df.at[lab, col] = value
+    else:
+        vals = df[col].tolist()
+        vals[pos] = value
+        iso.data_raw[col] = vals          # whole-column assignment on the same frame
+
+
+def edit_in_place(iso, mut, target, way):
+    """Change the live object so that its content becomes `target` (a content record of the spec),
+    for the spec mutation `mut`, through the `way`-th route a user has for that kind of edit."""
+    kind, a, i = mut["kind"], mut["a"], mut["i"]
+    if kind == "meta value":
+        iso.properties[a] = tok(sparse(target["meta"])[a])
+    elif kind == "meta key removed":
+        del iso.properties[a]
+    elif kind == "meta key added":
+        v = tok(sparse(target["meta"])[a])
+        if way == 0:
+            iso.properties[a] = v
+        else:
+            setattr(iso, a, v)
+    elif kind == "label":
+        for k, v in target["labels"].items():
+            if getattr(iso, k) != _label(v):
+                setattr(iso, k, _label(v))
+    elif kind in ("material name", "material property"):
+        props = {k: tok(v) for k, v in sparse(target["material"]["props"]).items()}
+        if way == 0:
+            if kind == "material name":
+                iso.material.name = target["material"]["name"]
+            else:
+                iso.material.properties.update(props)
+        else:
+            iso.material = {"name": target["material"]["name"], **props} if props else target["material"]["name"]
+    elif kind == "adsorbate":
+        iso.adsorbate = target["adsorbate"]
+    elif kind == "temperature":
+        iso.temperature = target["temp"] / 1e6
+    elif kind in ("datum", "text cell", "branch mark"):
+        row = target["rows"][i - 1]
+        if kind == "branch mark":
+            col, val = "branch", int(row["b"])
+        elif kind == "text cell":
+            col, val = "note", row["note"]
+        else:
+            col = {"p": iso.pressure_key, "l": iso.loading_key, "enth": "enth"}[a]
+            val = fx(row[a])
+        _set_cell(iso, col, i - 1, val, way)
+    elif kind == "row removed":
+        if way == 0:
+            iso.data_raw.drop(index=iso.data_raw.index[i - 1], inplace=True)
+        else:
+            keep = [k for k in range(len(iso.data_raw)) if k != i - 1]
+            iso.data_raw = iso.data_raw.iloc[keep]
+    elif kind == "column added":
+        enth = [fx(r["enth"]) for r in target["rows"]]
+        note = [r["note"] for r in target["rows"]]
+        if way == 0:
+            iso.data_raw["enth"] = enth
+            iso.data_raw["note"] = note
+        else:
+            iso.data_raw.insert(len(iso.data_raw.columns), "enth", enth)
+            iso.data_raw.insert(len(iso.data_raw.columns), "note", note)
+    elif kind == "model parameter":
+        iso.model.params[a] = fx(target["model"]["params"][a])
+    elif kind == "model range":
+        new = tuple(fx(v) for v in target["model"][a])
+        attr = "pressure_range" if a == "prange" else "loading_range"
+        if way == 0 or not isinstance(getattr(iso.model, attr), list):
+            setattr(iso.model, attr, new)
+        else:
+            getattr(iso.model, attr)[i - 1] = new[i - 1]
+    elif kind == "model rmse":
+        iso.model.rmse = fx(target["model"]["rmse"])
+    elif kind == "model branch":
+        iso.branch = target["model"]["branch"]
+    else:
+        raise EditNotRealisable(kind)
+
+
+def read_id(iso, reader, other):
+    """Take the identifier the way a user meets it."""
+    if reader == "eq":
+        iso == other          # noqa: B015  (compares identifiers)
+    elif reader == "repr":
+        repr(iso)
+    elif reader == "in_list":
+        iso in [other]        # noqa: B015
+    return iso.iso_id
+
+
+def edit_history(base_entry, mut_entry, way, reader, fresh_base, fresh_mut):
+    """build(base content, route) ; read id ; edit in place ; read id ; undo in place ; read id."""
+    iso = materialise(base_entry)
+    before = read_id(iso, reader, fresh_base)
+    mut = mut_entry["mut"]
+    try:
+        edit_in_place(iso, mut, mut_entry["content"], way)
+    except EditNotRealisable as e:
+        return {"skip": str(e)}
+    except (TypeError, ValueError) as e:
+        # pandas refuses lossy assignments (e.g. a float into an int64 column built from integer literals)
+        return {"skip": f"{type(e).__name__}: {str(e)[:80]}"}
+    out = {"before": before, "after": read_id(iso, reader, fresh_mut), "eq_fresh": bool(iso == fresh_mut),
+           "eq_old": bool(iso == fresh_base), "undo": ""}
+    if mut["kind"] in UNDOABLE:
+        try:
+            edit_in_place(iso, mut, base_entry["content"], way)
+            out["undo"] = iso.iso_id
+        except (EditNotRealisable, TypeError, ValueError):
+            out["undo"] = ""
+    return out
+
+
 def worker(path_in, path_out):
     """Other-process route: same scenarios, ids only."""
     from harness.common import quiet_pygaps
